@@ -21,6 +21,7 @@ RULE = (
     "growth-grammar network. Non-trivial = the history contains an explicit-engine step while an engine of a "
     "different kind (or a different instance) is selected. Distinct = SHA-1 of the case."
 )
+RULE += ' Half of the networks have mainstream origins at every source; element-level operations are biased towards mainstream origins.'
 BUDGET = {"quick": {"examples": 300, "shards": 4}, "thorough": {"fuzz_runs": 3000, "examples": 2000, "shards": 16}}
 EXPECTED_LABELS = ("use:other-thread", "step_fail", "el:init", "el:step", "el:init+step", "el:default", "el:explicit", "use:name", "use:bad-name", "use:spy", "use:real", "use:same-class-instance", "step:default", "step:explicit",
                    "explicit-differs-from-selected", "pair:numpy/SX", "pair:SX/numpy", "pair:MX/numpy", "pair:numpy/MX", "pair:SX/MX",
